@@ -22,9 +22,13 @@ def ser(sess, suite, t, args, fmt):
     """persist a value: postcard bytes (compared with the model) or JSON bytes (real code only)"""
     if fmt == "bin":
         r = sess.call("ser %s t=%s %s" % (suite, t, args), EXACT, "persist:" + t)
-        return r["b"] if r.ok else None
-    r = sess.call("json_ser %s t=%s %s" % (suite, t, args), NONE, "persist-json:" + t, model=False)
-    return r["j"] if r.ok else None
+    else:
+        r = sess.call("json_ser %s t=%s %s" % (suite, t, args), NONE, "persist-json:" + t, model=False)
+    if not r.ok:
+        # the only honest state that cannot be stored is one holding the identity element (a commitment to a zero coefficient)
+        sess.oracle(":id" in args or ",id" in args or "=id" in args, "an honest %s could not be persisted (%s): %s" % (t, fmt, r.raw[:60]), [sess.records[-1][0]])
+        return None
+    return r["b"] if fmt == "bin" else r["j"]
 
 
 def resumed(sess, suite, what, direct, step, state, rest, fmt, replay):
@@ -44,6 +48,13 @@ def resumed(sess, suite, what, direct, step, state, rest, fmt, replay):
     sess.case("resume|" + req, nontrivial=direct.ok, sample={"suite": suite, "boundary": what, "format": fmt, "answer": r.raw[:60]})
     sess.count("boundary:" + what)
     sess.count("format:" + fmt)
+    if fmt == "json":
+        # the same stored text read through a reader (a file) and as an already parsed document
+        for f2 in ("json_reader", "json_value"):
+            r2 = sess.call(req.replace("fmt=json ", "fmt=%s " % f2), NONE, "resume:%s:%s" % (step, f2), model=False)
+            sess.oracle(r2.raw == direct.raw, "%s: the step continued from the JSON copy read with %s answers differently from the uninterrupted one (%s vs %s)" % (what, f2, r2.raw[:70], direct.raw[:70]), replay + [sess.records[-1][0]])
+            sess.case("resume|" + sess.records[-1][0], nontrivial=direct.ok)
+            sess.count("format:" + f2)
 
 
 def protocol_runs(sess, suite, n, t, fmts):
@@ -143,10 +154,82 @@ def protocol_runs(sess, suite, n, t, fmts):
     sess.count("suite:" + suite)
 
 
+def special_states(sess, suite, fmts):
+    """states whose secret scalars sit at the edges of the field (top bits set, q-1, 1), and a large threshold"""
+    rng = sess.rng
+    fld = Fld(suite)
+    q = fld.q
+    top = 1 << (q.bit_length() - 1)
+    specials = [q - 1, q - 2, top, top + 1, 1, 2, q >> 1] + ([top + rng.randrange(q - top)] if q - top > 1 else [])
+    ids = make_ids(sess, suite, 3, "default")
+    r, shares, pkp = dealer(sess, suite, 3, 2, ids)
+    kps = keypkgs(sess, suite, shares)
+    me = ids[0]
+    k = kp_fields(kps[me])
+    msg = rand_msg(rng)
+    for a in specials:
+        for b in (specials[0], specials[2]):
+            # nonces (a, b) with their commitments, in a package with an honest second signer
+            D = sess.call("msm %s scalars=%s elems=%s" % (suite, fld.enc(a), G_of(sess, suite)), EXACT, "msm")
+            E = sess.call("msm %s scalars=%s elems=%s" % (suite, fld.enc(b), G_of(sess, suite)), EXACT, "msm")
+            if not (D.ok and E.ok) or "id" in (D["v"], E["v"]):
+                continue
+            nn = "%s:%s:%s:%s" % (fld.enc(a), fld.enc(b), D["v"], E["v"])
+            other = commit(sess, suite, kp_fields(kps[ids[1]])["share"])
+            comms = comms_str({me: nn, ids[1]: other})
+            kp2 = mk_kp(k["id"], fld.enc(a), k["Y"], k["vk"], 2)
+            d = sess.call("sign %s msg=%s comms=%s nonces=%s kp=%s" % (suite, msg, comms, nn, kp2), EXACT, "sign-special")
+            for fmt in fmts:
+                resumed(sess, suite, "edge-valued nonces + key package -> sign", d, "sign",
+                        {"nonces": ("nonces", "v=" + nn), "kp": ("keypackage", "v=" + kp2)}, "msg=%s comms=%s" % (msg, comms), fmt, [])
+    # key-generation secret packages with edge-valued polynomials / shares
+    run = Dkg(sess, suite, 3, 2, ids).part1()
+    if run.ok:
+        f = run.sp1[me].split(":")
+        for a in specials[:5]:
+            cs = [fld.enc(a), fld.enc(specials[0])]
+            cm = [sess.call("msm %s scalars=%s elems=%s" % (suite, c, G_of(sess, suite)), EXACT, "msm")["v"] for c in cs]
+            sp = ":".join([f[0], ",".join(cs), ",".join(cm), f[3], f[4]])
+            r1 = r1_str(run.pkg1, me)
+            d = sess.call("dkg2 %s sp=%s r1=%s" % (suite, sp, r1), EXACT, "dkg2-special")
+            for fmt in fmts:
+                resumed(sess, suite, "edge-valued dkg part1 -> part2", d, "dkg2", {"sp": ("dkg1secret", "v=" + sp)}, "r1=" + r1, fmt, [])
+            if d.ok:
+                sp2 = d["sp2"].split(":")
+                sp2[2] = fld.enc(a)
+                sp2 = ":".join(sp2)
+                r2 = ";".join("%s:%s" % (l, fld.enc(rng.randrange(1, q))) for l in ids if l != me)
+                d3 = sess.call("dkg3 %s sp2=%s r1=%s r2=%s" % (suite, sp2, r1, r2), EXACT, "dkg3-special")
+                for fmt in fmts:
+                    resumed(sess, suite, "edge-valued dkg part2 -> part3", d3, "dkg3", {"sp2": ("dkg2secret", "v=" + sp2)}, "r1=%s r2=%s" % (r1, r2), fmt, [])
+    # a large threshold: the stored round-one secret package grows with t
+    for (n, t) in ((70, 64),):
+        for p in ("dkg", "refresh_dkg"):
+            d1 = sess.call("%s1 %s id=%s n=%d t=%d tape=%s" % (p, suite, me, n, t, sess.tape(128 * t + 512)), EXACT, p + "1-large")
+            if not d1.ok:
+                continue
+            d = sess.call("%s2 %s sp=%s r1=" % (p, suite, d1["sp"]), EXACT, p + "2-large")
+            for fmt in fmts:
+                resumed(sess, suite, "%s part1 -> part2, threshold %d" % (p, t), d, p + "2", {"sp": ("dkg1secret", "v=" + d1["sp"])}, "r1=", fmt, [])
+
+
+_G = {}
+
+
+def G_of(sess, suite):
+    """the generator's encoding (commitment to the scalar one)"""
+    if suite not in _G:
+        fld = Fld(suite)
+        r = sess.call("split %s key=%s n=2 t=2 ids=default tape=%s" % (suite, fld.enc(1), sess.tape(256)), NONE, "generator")
+        _G[suite] = pkp_fields(r["pkp"])["vk"]
+    return _G[suite]
+
+
 def generate(sess):
     rng = sess.rng
     thorough = sess.tier != "quick"
     for suite in TOY_SUITES + REAL_SUITES:
+        special_states(sess, suite, ["bin", "json"])
         sizes = [(2, 2), (3, 2), (4, 3), (5, 5)] if thorough else ([(3, 2), (4, 3)] if suite in TOY_SUITES else [(3, 2)])
         for (n, t) in sizes:
             protocol_runs(sess, suite, n, t, ["bin", "json"])
